@@ -8,6 +8,10 @@ semantics.
                                             int/str, str, bool, float, Decimal, date, one-to-many Dept.persons,
                                             many-to-many Person.tags, hybrid properties/methods (HYBRIDS);
                                             SCHEMA describes the attribute types for the tree builders
+               define_slots(db)             separate small schema (data set 'slots'): Slot with the COMPOSITE primary key
+                                            (room, hour) + label, cap and one-to-many Slot.bookings -> Booking(id, slot,
+                                            qty nullable, w, note); PKS names the key attributes per entity; the mirror
+                                            object's .id is the key tuple
   data         dataset(name) -> Data        'pairs': pairwise product (covering array) of the boundary values in
                                             DOMAINS + grouped rows (all-None group, duplicates, empty dept, unused
                                             tag); 'small': 4 persons; 'empty'. Data(name, depts, tags, persons) builds
@@ -59,7 +63,7 @@ from vf import core
 # types
 INT, FLOAT, DEC, STR, BOOL, DATE, TD, COND, NONE = 'int', 'float', 'dec', 'str', 'bool', 'date', 'td', 'cond', 'none'
 NUM = (INT, FLOAT, DEC)
-ENTITIES = ('Person', 'Student', 'Dept', 'Tag')
+ENTITIES = ('Person', 'Student', 'Dept', 'Tag', 'Slot', 'Booking')
 def ms(t): return 'ms:' + t
 def is_ms(t): return t.startswith('ms:')
 def item_t(t): return t[3:]
@@ -478,6 +482,8 @@ prod('qgroup_concat', 'group_concat({0})', lazy=_l_qgroup_concat, atomic=True)
 QAGG = ('qsum', 'qmin', 'qmax', 'qavg', 'qcount', 'qcount_all', 'qgroup_concat')
 def has_qagg(x): return x is not None and any(n.op in QAGG for n in walk(x))
 
+# JOIN(expr): translation hint only - the value is that of the wrapped expression
+prod('join_hint', 'JOIN({0})', lazy=lambda ev, x, env: ev.value(x.a[0], env), atomic=True)
 prod('isinstance', 'isinstance({0}, {1})', lazy=lambda ev, x, env: (lambda o: None if o is None else x.a[1].v in o._classes)(ev.value(x.a[0], env)), atomic=True)
 
 # ------------------------------------------------------------------------------------------------
@@ -490,6 +496,11 @@ SCHEMA = {
 }
 SCHEMA['Student'] = dict(SCHEMA['Person'], grade=(INT, True))
 PK = 'id'
+# the 'slots' schema (separate database): composite primary key, one-to-many over a composite foreign key
+SCHEMA['Slot'] = dict(room=(INT, False), hour=(INT, False), label=(STR, False), cap=(INT, True), bookings=(ms('Booking'), False))
+SCHEMA['Booking'] = dict(id=(INT, False), slot=('Slot', False), qty=(INT, True), w=(INT, False), note=(STR, True))
+PKS = {'Slot': ('room', 'hour')}
+def pk_attrs(ent): return PKS.get(ent, (PK,))
 
 # hybrid methods / properties: name -> (kind, result type, body(base, *args) -> X)
 def _h_n2(p): return call('mul', INT, attr(p, 'n'), const(2))
@@ -537,6 +548,24 @@ def define(db):
         grade = Optional(int)
     return db
 
+def define_slots(db):
+    """the 'slots' schema on a pony Database of its own (before generate_mapping)"""
+    from pony.orm import PrimaryKey, Required, Optional, Set
+    class Slot(db.Entity):
+        room = Required(int)
+        hour = Required(int)
+        label = Required(str)
+        cap = Optional(int)
+        bookings = Set('Booking')
+        PrimaryKey(room, hour)
+    class Booking(db.Entity):
+        id = PrimaryKey(int)
+        slot = Required(Slot)
+        qty = Optional(int)
+        w = Required(int)
+        note = Optional(str, nullable=True)
+    return db
+
 # ------------------------------------------------------------------------------------------------
 # data sets and the plain-Python mirror
 class Obj(object):
@@ -549,11 +578,17 @@ class Obj(object):
     def __repr__(self): return '%s[%s]' % (self._cls, self.id)
 
 class Data(object):
-    def __init__(self, name, depts, tags, persons):
+    def __init__(self, name, depts, tags, persons, slots=(), bookings=()):
         """depts: (id, name, budget) ; tags: (id, label, w) ;
-        persons: dicts with id, cls, n, m, s, t, b, f, d, dt, dept (id or None), tags (tuple of ids), grade"""
+        persons: dicts with id, cls, n, m, s, t, b, f, d, dt, dept (id or None), tags (tuple of ids), grade
+        slots: (room, hour, label, cap) ; bookings: (id, (room, hour), qty, w, note)   ['slots' schema only]"""
         self.name = name
         self.spec = dict(depts=depts, tags=tags, persons=persons)
+        if slots or bookings: self.spec.update(slots=list(slots), bookings=list(bookings))
+        self.slots = [Obj('Slot', id=(r, h), room=r, hour=h, label=l, cap=c, bookings=[]) for r, h, l, c in slots]
+        sm = {o.id: o for o in self.slots}
+        self.bookings = [Obj('Booking', id=i, slot=sm[tuple(k)], qty=q, w=w, note=nt) for i, k, q, w, nt in bookings]
+        for b in self.bookings: b.slot.bookings.append(b)
         self.depts = [Obj('Dept', id=i, name=nm, budget=bu, persons=[]) for i, nm, bu in depts]
         self.tags = [Obj('Tag', id=i, label=l, w=w, persons=[]) for i, l, w in tags]
         dm, tm = {o.id: o for o in self.depts}, {o.id: o for o in self.tags}
@@ -568,7 +603,7 @@ class Data(object):
             for t in o.tags: t.persons.append(o)
             self.persons.append(o)
         self.ents = dict(Person=self.persons, Dept=self.depts, Tag=self.tags,
-                         Student=[p for p in self.persons if p._cls == 'Student'])
+                         Student=[p for p in self.persons if p._cls == 'Student'], Slot=self.slots, Booking=self.bookings)
     def get(self, ent, pk):
         for o in self.ents[ent]:
             if o.id == pk: return o
@@ -639,13 +674,35 @@ def dataset(name='pairs'):
                    dict(id=4, cls='Student', n=-3, m=0, s='A_b%', t='b', b=True, f=0.0, d=Decimal('0.00'), dt=date(2021, 12, 31), dept=2, tags=(2, 3), grade=None)]
     elif name == 'empty':
         depts, tags, persons = [], [], []
+    elif name == 'slots':
+        d = _DATASETS[name] = Data(name, [], [], [], SLOTS, BOOKINGS)
+        return d
     else: raise KeyError(name)
     d = _DATASETS[name] = Data(name, depts, tags, persons)
     return d
 
+# 'slots': every projection of part of the key (with or without non-key attributes) has coinciding rows:
+# (room) (hour) (room,label) (hour,label) (room,cap) (hour,cap) (room,label,cap) (hour,label,cap) (label) (cap) (label,cap)
+SLOTS = [(1, 9, 'a', 10), (1, 10, 'a', 10), (2, 9, 'a', None), (2, 10, 'b', None), (3, 9, 'b', 5), (1, 11, 'c', 10),
+         (3, 10, 'b', None), (4, 12, 'd', 0)]
+# bookings per slot: (1,9) mixed with a None; (1,10) EMPTY; (2,9) all qty None; (2,10) sums to 0 (2, -2); (3,9) single 0;
+# (1,11) duplicates (3, 3) and a negative; (3,10) EMPTY; (4,12) one None-qty booking whose note is None as well
+BOOKINGS = [(1, (1, 9), 2, 1, 'x'), (2, (1, 9), None, 2, 'y'), (3, (1, 9), 5, 0, None),
+            (4, (2, 9), None, 1, 'x'), (5, (2, 9), None, -1, 'x'),
+            (6, (2, 10), 2, 3, 'b'), (7, (2, 10), -2, 3, 'a'),
+            (8, (3, 9), 0, 0, ''),
+            (9, (1, 11), 3, 7, 'y'), (10, (1, 11), 3, -7, 'y'), (11, (1, 11), -4, 1, None),
+            (12, (4, 12), None, 5, None)]
+
 def load(db, data):
     """populate a freshly mapped database with the rows of `data` (through Pony itself)"""
     from pony.orm import db_session
+    if 'slots' in data.spec:
+        with db_session:
+            S = {(r, h): db.Slot(room=r, hour=h, label=l, **({} if c is None else dict(cap=c))) for r, h, l, c in data.spec['slots']}
+            for i, k, q, w, nt in data.spec['bookings']:
+                db.Booking(id=i, slot=S[tuple(k)], w=w, **{n: v for n, v in (('qty', q), ('note', nt)) if v is not None})
+        return
     with db_session:
         D = {i: db.Dept(id=i, name=nm, budget=bu) for i, nm, bu in data.spec['depts']}
         T = {i: db.Tag(id=i, label=l, w=w) for i, l, w in data.spec['tags']}
@@ -664,7 +721,7 @@ def get_db(name='pairs'):
     if key not in _DBS:
         from pony import orm
         db = orm.Database()
-        define(db)
+        (define_slots if name == 'slots' else define)(db)
         db.bind('sqlite', ':memory:')
         db.generate_mapping(create_tables=True)
         data = dataset(name)
@@ -810,12 +867,14 @@ class Query(object):
     proj : X or tuple of X;  conds: X list (each becomes its own `if`)
     order: tuple of (X, desc) -> .order_by(...), order_style in 'lambda' | 'str'
     """
-    def __init__(self, fors, proj, conds=(), order=(), order_style='lambda', dataset='pairs'):
+    def __init__(self, fors, proj, conds=(), order=(), order_style='lambda', dataset='pairs', post=None):
         self.fors = [(v, s if isinstance(s, X) else X('ent', ms(s), (), s)) for v, s in fors]
         self.proj, self.conds, self.order, self.order_style, self.dataset = proj, tuple(conds), tuple(order), order_style, dataset
+        self.post = post        # None | 'count': Query.count() of the result instead of the rows
     # ---- serialisation
     def to_json(self):
-        return dict(fors=[[v, to_json(s)] for v, s in self.fors],
+        extra = dict(post=self.post) if self.post else {}
+        return dict(extra, fors=[[v, to_json(s)] for v, s in self.fors],
                     proj=[to_json(p) for p in self.proj] if isinstance(self.proj, tuple) else to_json(self.proj),
                     tuple=isinstance(self.proj, tuple), conds=[to_json(c) for c in self.conds],
                     order=[[to_json(k), d] for k, d in self.order], order_style=self.order_style, dataset=self.dataset)
@@ -823,7 +882,7 @@ class Query(object):
     def from_json(j):
         proj = tuple(from_json(p) for p in j['proj']) if j['tuple'] else from_json(j['proj'])
         return Query([(v, from_json(s)) for v, s in j['fors']], proj, [from_json(c) for c in j['conds']],
-                     [(from_json(k), d) for k, d in j['order']], j['order_style'], j['dataset'])
+                     [(from_json(k), d) for k, d in j['order']], j['order_style'], j['dataset'], j.get('post'))
     # ---- source text
     def all_nodes(self):
         xs = [s for _, s in self.fors] + list(self.conds) + [k for k, _ in self.order]
@@ -858,6 +917,7 @@ class Query(object):
         if self.order:
             if self.order_style == 'str': text += '.order_by(%r)' % self.order_src()
             else: text += '.order_by(lambda: %s)' % self.order_src()
+        if self.post == 'count': text += '.count()'
         return text
     # ---- execution through Pony
     def make(self, db, frontend='str'):
@@ -883,6 +943,7 @@ class Query(object):
         """list of normalised result rows (tuples); raises whatever Pony raises"""
         from pony.orm import db_session
         with db_session:
+            if self.post == 'count': return [(self.make(db, frontend).count(),)]
             res = self.make(db, frontend)[:]
             return [norm_row(r) for r in res]
     # ---- reference result
@@ -890,12 +951,21 @@ class Query(object):
         """Pony documents DISTINCT when the row does not contain the full primary key of every
         iterated entity (aggregated queries: one row per group)"""
         proj = self.proj if isinstance(self.proj, tuple) else (self.proj,)
-        have = set()
+        have, parts = set(), {}
         for p in proj:
             if p.op == 'var': have.add(p.v)
-            elif p.op == 'attr' and p.v == PK and p.a[0].op == 'var': have.add(p.a[0].v)
+            elif p.op == 'attr' and p.a[0].op == 'var' and p.v in pk_attrs(p.a[0].t):
+                parts.setdefault(p.a[0].v, set()).add(p.v)
+        for v, s in self.fors:
+            if parts.get(v) == set(pk_attrs(item_t(s.t))): have.add(v)      # a composite key counts only when complete
         return not all(v in have for v, _ in self.fors)
     def expected(self, data, ev=None):
+        if self.post == 'count':
+            exp = Query(self.fors, self.proj, self.conds, (), self.order_style, self.dataset).expected(data, ev)
+            if exp.undecided: return Expected('bag', [], [INT], undecided=exp.undecided)
+            if any(r.optional or r.wild for r in exp.rows): return Expected('bag', [], [INT], undecided='no-answer row under count()')
+            n = len(set(tuple(canon(v) for v in r.vals) for r in exp.rows)) if exp.mode == 'set' else len(exp.rows)
+            return Expected('bag', [Row((n,), False, False, None)], [INT])
         ev = ev or Evaluator(data)
         proj = self.proj if isinstance(self.proj, tuple) else (self.proj,)
         types = [p.t for p in proj]
@@ -977,8 +1047,7 @@ UNORDERED = type('Unordered', (), {'__repr__': lambda s: '<no order>'})()
 
 def base_globals(db):
     from pony import orm
-    g = dict(Person=db.Person, Student=db.Student, Dept=db.Dept, Tag=db.Tag, Decimal=Decimal, date=date,
-             timedelta=timedelta)
+    g = dict(db.entities, Decimal=Decimal, date=date, timedelta=timedelta)
     for n in ('select', 'count', 'sum', 'min', 'max', 'avg', 'group_concat', 'exists', 'desc', 'between', 'coalesce',
               'concat', 'distinct', 'JOIN', 'raw_sql', 'left_join'):
         g[n] = getattr(orm, n)
